@@ -18,8 +18,15 @@ JOBS = {
     "quick": [
         ("f4", {"Template": '"f"', "Budget": 4}),
         ("dsp4in", {"Template": '"dsp"', "UseInput": "TRUE", "Budget": 4}),
+        # stateful constructs inside if arms (every arm owns its cells)
+        ("ifstate5", {"Template": '"f"', "Budget": 5, "Lits": "{1}", "Ops": '{"+"}',
+                      "Helpers": '{"counter", "lag", "pacc"}',
+                      "Prods": '{"now", "if", "mem", "delay", "ifp", "proj", "tup"}'}),
     ],
     "thorough": [
+        ("ifstate6", {"Template": '"f"', "Budget": 6, "Lits": "{1}", "Ops": '{"+"}',
+                      "Helpers": '{"counter", "lag", "pacc", "dl", "nest"}',
+                      "Prods": '{"now", "if", "mem", "delay", "ifp", "proj", "tup"}'}),
         ("f5", {"Template": '"f"', "Budget": 5, "Lits": "{1, 2}", "Ops": '{"+", "*", "-"}'}),
         ("dsp5in", {"Template": '"dsp"', "UseInput": "TRUE", "Budget": 5, "Ops": '{"+", "*", "<"}'}),
         ("f4full", {"Template": '"f"', "Budget": 4, "Lits": "{0, 1, 3}",
